@@ -73,7 +73,10 @@ JudgeMerged(t) ==
         /\ i \in 1..nf /\ s \in JProbeSystems(Fs[i])
         /\ \A k \in 1..Len(txt) : txt[k] \in DOMAIN X.cf[i]
         /\ ~(RowOK(r[5], Len(Fs[i].out)) /\ RowOK(r[6], ng) /\ SameShaping(Fs[i], r[5], M, r[6]))
-      shaping == If(disjoint /\ \E k \in 1..Len(t.shape) : shapebad(t.shape[k]), <<"DisjointShaping", "hb">>)
+      (* an input whose own layout produces a glyph id beyond its glyph count is outside the domain *)
+      outside(r) == r[1] \in 1..nf /\ ~RowOK(r[5], Len(Fs[r[1]].out))
+      shaping == If(disjoint /\ \E k \in 1..Len(t.shape) : ~outside(t.shape[k]) /\ shapebad(t.shape[k]), <<"DisjointShaping", "hb">>)
+                 \cup If(\E k \in 1..Len(t.shape) : outside(t.shape[k]), <<"skip:input-layout-produces-a-glyph-id-outside-the-font", "">>)
       stages ==
         If(~OrderRuleOK(FlatNames(Fs), M.names), <<"Stage", "mega-glyph-order">>)
         \cup If(mc # X.cm, <<"Stage", "mega-cmap">>)
